@@ -16,7 +16,7 @@ import re
 
 from crosshair.tracers import NoTracing
 
-from lib.hx import conc, npart, part, silence, tick, tock
+from lib.hx import conc, kf_active, npart, part, silence, tick, tock
 
 silence()
 from lib import ws  # noqa: E402
@@ -113,6 +113,45 @@ PR2 = """program pr2
   call {work@ma.work}({k@pr2.k}, {mi@ma.i})
 end program pr2
 """
+# a procedure declared in an interface block of a module is an entity of the module: used from another file
+MI = """module mi
+  interface
+    subroutine {ext@mi.ext}({a@ext.a})
+      integer :: {a@ext.a}
+    end subroutine {ext@mi.ext}
+  end interface
+  interface {gen@mi.gen}
+    subroutine {spec@mi.spec}({a@spec.a})
+      real :: {a@spec.a}
+    end subroutine {spec@mi.spec}
+  end interface {gen@mi.gen}
+end module mi
+"""
+PR4 = """subroutine pr4()
+  use mi
+  call {ext@mi.ext}(1)
+  call {gen@mi.gen}(1.0)
+end subroutine pr4
+"""
+# the specific procedure declared by an interface body inside a NAMED generic, called by its own name from another
+# file: see known finding C06-specific-in-named-generic (the file is part of the check once the finding is gone)
+PR5 = """subroutine pr5()
+  use mi
+  call {spec@mi.spec}(2.0)
+end subroutine pr5
+"""
+# fixed form: comment lines (c, *, ! in column 1), trailing ! comments, '!' inside a character literal
+FX = """      subroutine {fs@fx.fs}({val@fs.val})
+      integer {val@fs.val}
+      {val@fs.val} = 1 ! val here
+c     val there
+*     val = 2
+! val
+      print *, 'val ! val', {val@fs.val} ! val
+      {val@fs.val} = {val@fs.val} +
+     &  {val@fs.val}
+      end
+"""
 MARK = re.compile(r"\{([A-Za-z_$][\w$]*)@([\w.]+)\}")
 
 
@@ -133,7 +172,8 @@ def render(template: str):
 
 
 FILES, OCC = {}, []
-for _name, _tpl in (("ma.f90", MA), ("mb.f90", MB), ("mc.f90", MC), ("mh.f90", MH), ("pr.f90", PR), ("pr3.f90", PR3)):
+for _name, _tpl in (("ma.f90", MA), ("mb.f90", MB), ("mc.f90", MC), ("mh.f90", MH), ("pr.f90", PR), ("pr3.f90", PR3),
+                    ("mi.f90", MI), ("pr4.f90", PR4), ("fx.f", FX)) + (() if kf_active("C06-specific-in-named-generic") else (("pr5.f90", PR5),)):
     _t, _o = render(_tpl)
     FILES[f"{R}/{_name}"] = _t
     OCC += [(f"{R}/{_name}",) + o for o in _o]
